@@ -87,6 +87,8 @@ class ExecPlaces(Exec):
         if not isinstance(c, ListCell):
             raise OutOfSubset(f"{name} on non-list")
         if name == "append":
+            if len(args) != 1:
+                raise _Raise("TypeError")
             (v,) = args
             if c.items is not None:
                 c.items.append(v)
@@ -105,7 +107,8 @@ class ExecPlaces(Exec):
                     raise PathEnd("pop from empty")
                 return c.items.pop() if name == "pop" else c.items.pop(0)
             n = seq_len(c.sv)
-            self.oblige("nonempty-pop", n > 0, node)
+            if self.bounds_checks:
+                self.oblige("nonempty-pop", n > 0, node)
             self.p.assume(n > 0)
             if name == "pop":
                 v = seq_nth(c.sv, n - 1)
